@@ -12,13 +12,13 @@ HEAP_FUNCS = {"heappush", "heappop", "heapify", "heapreplace", "heappushpop"}
 _flow_cache = {}
 
 
-def flow_of(finfo):
+def flow_of(finfo, track_self=False):
     """Flow (CFG + reaching definitions) of a FuncInfo, cached per AST node."""
-    k = id(finfo.node)
+    k = (id(finfo.node), track_self)
     if k not in _flow_cache:
         if len(_flow_cache) > 4000:
             _flow_cache.clear()
-        _flow_cache[k] = (finfo.node, Flow(finfo))
+        _flow_cache[k] = (finfo.node, Flow(finfo, track_self=track_self))
     return _flow_cache[k][1]
 
 
@@ -372,3 +372,99 @@ def cmp_norm(atom, truth=True):
     sym = {ast.Lt: "<", ast.LtE: "<=", ast.Eq: "==", ast.NotEq: "!=", ast.Is: "is", ast.IsNot: "is not",
            ast.In: "in", ast.NotIn: "not in"}[op]
     return l, sym, r
+
+
+# ----------------------------------------------------------------------------
+# list construction, property resolution
+# ----------------------------------------------------------------------------
+
+WRAPPERS = {"array", "asarray", "list", "tuple"}
+
+
+def collect_list(fl, value, node, depth=4):
+    """Elements of a list-valued expression as [(expanded element, expanded iteration source or None)];
+    understands literals, single-generator comprehensions, `L = []` + `L.append(x)` in loops, and
+    np.array/list/tuple wrappers.  None = construction not recognised."""
+    v = value
+    while isinstance(v, ast.Call) and call_name(v) in WRAPPERS and v.args:
+        v = v.args[0]
+    if isinstance(v, (ast.List, ast.Tuple)):
+        return [(fl.expand(e, node), None) for e in v.elts]
+    if isinstance(v, (ast.ListComp, ast.GeneratorExp)) and len(v.generators) == 1:
+        g = v.generators[0]
+        it = fl.expand(g.iter, node)
+        mapping = {}
+        cn = call_name(it)
+        if isinstance(g.target, ast.Name):
+            base = it
+            if cn == "range" and len(it.args) == 1 and call_name(it.args[0]) == "len":
+                mapping[g.target.id] = ast.Call(func=ast.Name(id="__idx__", ctx=ast.Load()), args=[it.args[0].args[0]], keywords=[])
+                base = it.args[0].args[0]
+            else:
+                mapping[g.target.id] = ast.Call(func=ast.Name(id="__elem__", ctx=ast.Load()), args=[it], keywords=[])
+            it = base
+        elif isinstance(g.target, ast.Tuple) and cn == "enumerate" and len(g.target.elts) == 2 and all(isinstance(x, ast.Name) for x in g.target.elts):
+            base = it.args[0]
+            mapping[g.target.elts[0].id] = ast.Call(func=ast.Name(id="__idx__", ctx=ast.Load()), args=[base], keywords=[])
+            mapping[g.target.elts[1].id] = ast.Call(func=ast.Name(id="__elem__", ctx=ast.Load()), args=[base], keywords=[])
+            it = base
+        elif isinstance(g.target, ast.Tuple) and cn == "items" and len(g.target.elts) == 2 and all(isinstance(x, ast.Name) for x in g.target.elts):
+            base = it.func.value
+            mapping[g.target.elts[0].id] = ast.Call(func=ast.Name(id="__key__", ctx=ast.Load()), args=[base], keywords=[])
+            mapping[g.target.elts[1].id] = ast.Call(func=ast.Name(id="__val__", ctx=ast.Load()), args=[base], keywords=[])
+            it = base
+        else:
+            return None
+        elt = _subst(copy.deepcopy(fl.expand(v, node).elt), mapping)
+        return [(elt, it)] if not g.ifs else [(elt, ast.Call(func=ast.Name(id="__filtered__", ctx=ast.Load()), args=[it], keywords=[]))]
+    if isinstance(v, ast.Name) and depth > 0:
+        defs = fl.defs_at(node, v.id)
+        if len(defs) != 1:
+            return None
+        d = next(iter(defs))
+        how = fl.def_how(d, v.id)
+        if how[0] != "assign":
+            return None
+        init = how[1]
+        if isinstance(init, ast.List) and not init.elts:
+            out = []
+            for n in fl.cfg.nodes:
+                for e in fl.cfg.node_exprs(n):
+                    for p, m, c in mutating_calls(e):
+                        if p == v.id and fl.defs_at(n, v.id) == defs:
+                            if m != "append" or len(c.args) != 1:
+                                return None
+                            loops = [t for t, lab in fl.cfg.edges_dominating(n) if t.kind == "for" and lab is True]
+                            it = None
+                            if loops:
+                                itx = fl.expand(loops[-1].stmt.iter, loops[-1])
+                                cn = call_name(itx)
+                                if cn == "enumerate" and itx.args:
+                                    itx = itx.args[0]
+                                elif cn == "range" and len(itx.args) == 1 and call_name(itx.args[0]) == "len":
+                                    itx = itx.args[0].args[0]
+                                elif cn == "items" and isinstance(itx.func, ast.Attribute):
+                                    itx = itx.func.value
+                                it = itx
+                                conds = [t for t, lab in fl.cfg.edges_dominating(n) if t.kind == "test" and fl.cfg.dominates(loops[-1], t)]
+                                if conds:
+                                    it = ast.Call(func=ast.Name(id="__filtered__", ctx=ast.Load()), args=[it], keywords=[])
+                            out.append((fl.expand(c.args[0], n), it))
+            return out
+        return collect_list(fl, init, d, depth - 1)
+    return None
+
+
+def resolve_prop(repo, cls, s):
+    """replace self.<property> by the private attribute it returns when the property body is `return self._x`."""
+    def rep(m):
+        name = m.group(1)
+        meth = repo.method(cls, name, optional=True)
+        if meth is not None and meth.is_property():
+            body = [b for b in meth.node.body if not (isinstance(b, ast.Expr) and isinstance(b.value, ast.Constant))]
+            if len(body) == 1 and isinstance(body[0], ast.Return) and body[0].value is not None:
+                d = dotted(body[0].value)
+                if d and d.startswith("self."):
+                    return d
+        return m.group(0)
+    return re.sub(r"\bself\.(\w+)\b(?!\()", rep, s)
